@@ -152,8 +152,9 @@ CLAIMED['C02'] = dict(
          'arguments are exactly the argument edges (import name of the argument index, kind and encoded index of the source node) followed by the recorded implicit arguments; (B) alias: '
          'InstanceExport{instance = encoded index of the alias source, name and kind = the designated export}; (C) encode_names: every named node once, under its encoded index and name, in '
          'the name map handed to the section of its own kind; (D) encode: import nodes go to encode_imports, every other node is emitted once in order by the function of its kind, every '
-         'non-definition export is bound to (name, kind, encoded index) of its node in export order. NOT claimed: the bytes wasm_encoder produces for these calls, TypeEncoder, `definition`, '
-         '`import`, `toposort`, byte-identity of embedded packages beyond the identity of the slice passed.',
+         'non-definition export is bound to (name, kind, encoded index) of its node in export order; (E) definition: the type is encoded by the encoder of its kind (an alias of an already '
+         'exported type reuses its index), exported as a type under the node\'s name, the exported index recorded. NOT claimed: the bytes wasm_encoder produces for these calls, TypeEncoder, '
+         '`toposort`, byte-identity of embedded packages beyond the identity of the slice passed.',
     note='Trusted: RI of C06 (plus: argument / alias edge indices are within the import / export lists they were taken from), event models of ComponentBuilder / NameMap / ComponentNameSection, M2S, z3. Counterexamples are rule-level; two fixed scripts (two versions of one package; a named core module) are inspected natively when the matching obligation fails.',
     design='DESIGN.md section 9.2 / C02')
 
